@@ -1,18 +1,24 @@
 (* NasProofs.v — the number-as-string functions (Model/FunsNas.v) compute exact decimal results.
    The value of a decimal (m, s) is the rational m * 10^(-s) (Coq's QArith, axiom free);
    "+", "-", "*", abs, normalise and the comparisons agree with exact rational arithmetic, and the
-   normal form depends on the value only (spelling independence). *)
-From Coq Require Import List NArith ZArith Bool Lia QArith Qabs.
-From Jawk Require Import Base F64 Json Printer Fn FunBase FunsNas.
+   normal form depends on the value only (spelling independence).
+     1-2  dec_value, common scales            3  dec_add/sub/mul/abs_exact
+     4    dec_cmp_exact                       5  dec_normalize_value / _nf / _canonical
+     6    sem_nas: results of "+" "-" "*" abs "||" and the comparisons, spelling independence
+     7    dec_show_parse: dec_parse reads back what dec_show writes (scale in the i64 range)
+     8    examples by vm_compute              9  Print Assumptions (all closed) *)
+From Coq Require Import String Ascii.
+From Coq Require Import List NArith ZArith Bool Lia ZifyBool QArith Qabs.
+From Jawk Require Import Base F64 Json Printer Fn FunBase FunsNas PrinterProofs.
 Import ListNotations.
 Local Open Scope Z_scope.
 
-Arguments Z.pow : simpl never.
-Arguments Z.mul : simpl never.
-Arguments Z.add : simpl never.
-Arguments Z.sub : simpl never.
-Arguments Z.quot : simpl never.
-Arguments Z.rem : simpl never.
+Local Arguments Z.pow : simpl never.
+Local Arguments Z.mul : simpl never.
+Local Arguments Z.add : simpl never.
+Local Arguments Z.sub : simpl never.
+Local Arguments Z.quot : simpl never.
+Local Arguments Z.rem : simpl never.
 
 (* ================================================================== *)
 (* 1. the value of a decimal                                           *)
@@ -242,7 +248,7 @@ Proof.
     apply IH; lia.
 Qed.
 
-Lemma size_nat_pos_gt : forall p, Zpos p < 2 ^ Z.of_nat (Pos.size_nat p).
+Lemma size_nat_pos_gtZ : forall p, Zpos p < 2 ^ Z.of_nat (Pos.size_nat p).
 Proof.
   induction p as [p IH|p IH|]; cbn [Pos.size_nat];
     rewrite Nat2Z.inj_succ, Z.pow_succ_r by lia; lia.
@@ -252,8 +258,8 @@ Lemma abs_size_gt : forall m, Z.abs m < 2 ^ Z.of_nat (N.size_nat (Z.abs_N m)).
 Proof.
   intros [|p|p]; cbn [Z.abs Z.abs_N N.size_nat Z.of_nat].
   - rewrite Z.pow_0_r. lia.
-  - apply size_nat_pos_gt.
-  - apply size_nat_pos_gt.
+  - apply size_nat_pos_gtZ.
+  - apply size_nat_pos_gtZ.
 Qed.
 
 Theorem dec_normalize_value : forall a, dec_value (dec_normalize a) == dec_value a.
@@ -530,3 +536,536 @@ Proof.
   - destruct (sem_nas_sub1 s1 a Ha) as [-> V1]. destruct (sem_nas_sub1 s1' a' Ha') as [-> V2].
     do 2 f_equal. apply of_dec_value. rewrite V1, V2, Va. reflexivity.
 Qed.
+
+(* ================================================================== *)
+(* 7. N8 : dec_parse reads back what dec_show writes                   *)
+(* ================================================================== *)
+
+(* dec_parse once the exponent is known *)
+Definition parse_base (base : str) (ev : Z) : option (Z * Z) :=
+  match base with
+  | [] => None
+  | _ :: _ =>
+      let '(lead, tr) := split_first is_dot base in
+      let '(digits, off) :=
+        match tr with
+        | None => (base, 0)
+        | Some [] => (lead, 0)
+        | Some trail =>
+            (lead ++ trail, Z.of_nat (length (filter (fun c => negb (is_us c)) trail)))
+        end in
+      let scale := off - ev in
+      if fits_i64 scale then
+        match bigint_of_str digits with
+        | Some m => Some (m, scale)
+        | None => None
+        end
+      else None
+  end.
+
+Lemma dec_parse_unfold : forall s,
+  dec_parse s =
+  let '(base, ex) := split_first is_exp_sep s in
+  match (match ex with None => Some 0 | Some e => i128_of_str e end) with
+  | None => None
+  | Some ev => parse_base base ev
+  end.
+Proof. intros s. reflexivity. Qed.
+
+Lemma split_first_app : forall p l1 c l2,
+  forallb (fun x => negb (p x)) l1 = true -> p c = true ->
+  split_first p (l1 ++ c :: l2) = (l1, Some l2).
+Proof.
+  intros p l1 c l2 H1 Hc. induction l1 as [|x l1 IH]; cbn [app split_first].
+  - rewrite Hc. reflexivity.
+  - cbn [forallb] in H1. apply andb_true_iff in H1. destruct H1 as [Hx H1].
+    apply negb_true_iff in Hx. rewrite Hx, (IH H1). reflexivity.
+Qed.
+
+Lemma split_first_none : forall p l,
+  forallb (fun x => negb (p x)) l = true -> split_first p l = (l, None).
+Proof.
+  intros p l H1. induction l as [|x l IH]; cbn [split_first]; [reflexivity|].
+  cbn [forallb] in H1. apply andb_true_iff in H1. destruct H1 as [Hx H1].
+  apply negb_true_iff in Hx. rewrite Hx, (IH H1). reflexivity.
+Qed.
+
+Lemma forallb_impl : forall (p q : N -> bool) l,
+  (forall x, p x = true -> q x = true) -> forallb p l = true -> forallb q l = true.
+Proof.
+  intros p q l Hpq. induction l as [|x l IH]; cbn [forallb]; [reflexivity|].
+  intros H. apply andb_true_iff in H. destruct H as [Hx H].
+  rewrite (Hpq x Hx), (IH H). reflexivity.
+Qed.
+
+Lemma is_digit_bounds : forall c, is_digit c = true -> (48 <= c <= 57)%N.
+Proof.
+  intros c H. unfold is_digit in H. apply andb_true_iff in H. destruct H as [H1 H2].
+  apply N.leb_le in H1. apply N.leb_le in H2. lia.
+Qed.
+
+Lemma digit_neq : forall c k, is_digit c = true -> (k < 48 \/ 57 < k)%N -> (c =? k)%N = false.
+Proof. intros c k H Hk. apply is_digit_bounds in H. apply N.eqb_neq. lia. Qed.
+
+Lemma digit_not_exp : forall c, is_digit c = true -> negb (is_exp_sep c) = true.
+Proof.
+  intros c H. unfold is_exp_sep. rewrite !(digit_neq c _ H) by lia. reflexivity.
+Qed.
+Lemma digit_not_dot : forall c, is_digit c = true -> negb (is_dot c) = true.
+Proof. intros c H. unfold is_dot. rewrite (digit_neq c _ H) by lia. reflexivity. Qed.
+Lemma digit_not_us : forall c, is_digit c = true -> negb (is_us c) = true.
+Proof. intros c H. unfold is_us. rewrite (digit_neq c _ H) by lia. reflexivity. Qed.
+Lemma digit_digit_or_us : forall c, is_digit c = true -> is_digit_or_us c = true.
+Proof. intros c H. unfold is_digit_or_us. rewrite H. reflexivity. Qed.
+
+Lemma filter_all : forall (p : N -> bool) l, forallb p l = true -> filter p l = l.
+Proof.
+  intros p l. induction l as [|x l IH]; cbn [forallb filter]; [reflexivity|].
+  intros H. apply andb_true_iff in H. destruct H as [Hx H]. rewrite Hx, (IH H). reflexivity.
+Qed.
+
+(* ---- digit strings ---- *)
+
+Lemma digits_of_N_alld : forall n, forallb is_digit (digits_of_N n) = true.
+Proof.
+  intros n. apply forallb_forall. intros x Hx.
+  pose proof (dig_rep_digits _ _ (digits_of_N_rep n)) as H.
+  rewrite Forall_forall in H. apply H. exact Hx.
+Qed.
+
+Lemma digits_of_N_cons : forall n, exists d t, digits_of_N n = d :: t.
+Proof.
+  intros n. destruct (dig_rep_head _ _ (digits_of_N_rep n)) as [d [t [E _]]].
+  exists d, t. exact E.
+Qed.
+
+Lemma N_of_digits_acc_app : forall l1 l2 a,
+  N_of_digits_acc (l1 ++ l2) a = N_of_digits_acc l2 (N_of_digits_acc l1 a).
+Proof. induction l1 as [|x l1 IH]; intros l2 a; cbn [app N_of_digits_acc]; auto. Qed.
+
+Lemma N_of_digits_acc_zeros : forall k a,
+  Z.of_N (N_of_digits_acc (repeat 48%N k) a) = Z.of_N a * 10 ^ Z.of_nat k.
+Proof.
+  induction k as [|k IH]; intros a.
+  - cbn [repeat N_of_digits_acc Z.of_nat]. rewrite Z.pow_0_r. ring.
+  - cbn [repeat N_of_digits_acc]. rewrite IH, Nat2Z.inj_succ, Z.pow_succ_r by lia.
+    replace (a * 10 + (48 - 48))%N with (a * 10)%N by lia. rewrite N2Z.inj_mul.
+    change (Z.of_N 10) with 10. ring.
+Qed.
+
+Lemma N_of_digits_zeros_app : forall k ds,
+  N_of_digits (48%N :: repeat 48%N k ++ ds) = N_of_digits ds.
+Proof.
+  intros k ds. unfold N_of_digits.
+  change (48%N :: repeat 48%N k ++ ds) with (repeat 48%N (Datatypes.S k) ++ ds).
+  rewrite N_of_digits_acc_app. f_equal.
+  apply N2Z.inj. rewrite N_of_digits_acc_zeros. reflexivity.
+Qed.
+
+Lemma N_of_digits_app_zeros : forall ds k,
+  Z.of_N (N_of_digits (ds ++ repeat 48%N k)) = Z.of_N (N_of_digits ds) * 10 ^ Z.of_nat k.
+Proof.
+  intros ds k. unfold N_of_digits. rewrite N_of_digits_acc_app. apply N_of_digits_acc_zeros.
+Qed.
+
+(* ---- the integer readers on digit strings ---- *)
+
+Definition sg (neg : bool) (l : str) : str := if neg then 45%N :: l else l.
+Definition sgz (neg : bool) (z : Z) : Z := if neg then - z else z.
+
+Lemma sg_app : forall neg x y, sg neg (x ++ y) = sg neg x ++ y.
+Proof. intros [|] x y; reflexivity. Qed.
+
+Lemma bigint_of_digits : forall neg ds, ds <> [] -> forallb is_digit ds = true ->
+  bigint_of_str (sg neg ds) = Some (sgz neg (Z.of_N (N_of_digits ds))).
+Proof.
+  intros neg ds Hne Hd. destruct ds as [|c t]; [contradiction|].
+  assert (Hc : is_digit c = true) by (cbn [forallb] in Hd; apply andb_true_iff in Hd; tauto).
+  assert (Hbody : biguint_body (c :: t) = Some (N_of_digits (c :: t))).
+  { unfold biguint_body. unfold is_us at 1. rewrite (digit_neq c _ Hc) by lia.
+    rewrite (forallb_impl _ _ _ digit_digit_or_us Hd), (filter_all _ _ Hd). reflexivity. }
+  assert (Hu : biguint_of_str (c :: t) = Some (N_of_digits (c :: t))).
+  { unfold biguint_of_str. rewrite (digit_neq c _ Hc) by lia. exact Hbody. }
+  destruct neg; unfold sg, sgz, bigint_of_str.
+  - change (45 =? 45)%N with true. cbv iota. rewrite (digit_neq c _ Hc) by lia.
+    rewrite Hu. reflexivity.
+  - rewrite (digit_neq c _ Hc) by lia. rewrite Hu. reflexivity.
+Qed.
+
+Lemma i128_digits_ok : forall neg ds, ds <> [] -> forallb is_digit ds = true ->
+  fits_i128 (sgz neg (Z.of_N (N_of_digits ds))) = true ->
+  i128_digits neg ds = Some (sgz neg (Z.of_N (N_of_digits ds))).
+Proof.
+  intros neg ds Hne Hd Hf. destruct ds as [|c t]; [contradiction|].
+  unfold i128_digits. rewrite Hd. unfold sgz in Hf. rewrite Hf. reflexivity.
+Qed.
+
+Lemma i128_show_signed : forall z, fits_i128 z = true -> i128_of_str (show_signed z) = Some z.
+Proof.
+  intros z Hf. destruct z as [|p|p]; unfold show_signed.
+  - vm_compute. reflexivity.
+  - change (Z.pos p <? 0) with false. cbv iota. unfold i128_of_str. change (43 =? 43)%N with true.
+    cbv iota. cbn [digits_of_Z].
+    destruct (digits_of_N_cons (N.pos p)) as [d [t E]].
+    rewrite (i128_digits_ok false (digits_of_N (N.pos p)));
+      rewrite ?N_of_digits_of_N; [reflexivity|rewrite E; discriminate|apply digits_of_N_alld|exact Hf].
+  - change (Z.neg p <? 0) with true. cbv iota. cbn [digits_of_Z]. unfold i128_of_str.
+    change (45 =? 43)%N with false. change (45 =? 45)%N with true. cbv iota.
+    destruct (digits_of_N_cons (N.pos p)) as [d [t E]].
+    rewrite (i128_digits_ok true (digits_of_N (N.pos p)));
+      rewrite ?N_of_digits_of_N; [reflexivity|rewrite E; discriminate|apply digits_of_N_alld|exact Hf].
+Qed.
+
+(* ---- parse_base on the two shapes dec_show produces ---- *)
+
+Lemma sg_no_dot : forall neg ds, forallb is_digit ds = true ->
+  forallb (fun x => negb (is_dot x)) (sg neg ds) = true.
+Proof.
+  intros neg ds Hd. pose proof (forallb_impl _ _ _ digit_not_dot Hd) as H.
+  destruct neg; unfold sg; cbn [forallb]; rewrite ?H; reflexivity.
+Qed.
+
+Lemma sg_no_exp : forall neg ds, forallb (fun x => negb (is_exp_sep x)) ds = true ->
+  forallb (fun x => negb (is_exp_sep x)) (sg neg ds) = true.
+Proof. intros neg ds H. destruct neg; unfold sg; cbn [forallb]; rewrite ?H; reflexivity. Qed.
+
+Lemma sg_cons : forall neg ds, ds <> [] -> exists c t, sg neg ds = c :: t.
+Proof.
+  intros neg ds Hne. destruct neg; unfold sg; [eauto|].
+  destruct ds as [|c t]; [contradiction|eauto].
+Qed.
+
+(* integer shape: [-]ddd *)
+Lemma parse_base_int : forall neg ds ev, ds <> [] -> forallb is_digit ds = true ->
+  fits_i64 (0 - ev) = true ->
+  parse_base (sg neg ds) ev = Some (sgz neg (Z.of_N (N_of_digits ds)), 0 - ev).
+Proof.
+  intros neg ds ev Hne Hd Hf. unfold parse_base.
+  destruct (sg_cons neg ds Hne) as [c [t E]]. rewrite E, <- E.
+  rewrite (split_first_none _ _ (sg_no_dot neg ds Hd)). cbv iota beta zeta.
+  rewrite Hf, (bigint_of_digits neg ds Hne Hd). reflexivity.
+Qed.
+
+(* fraction shape: [-]ddd.ddd *)
+Lemma parse_base_frac : forall neg l1 l2 ev, l1 <> [] -> l2 <> [] ->
+  forallb is_digit l1 = true -> forallb is_digit l2 = true ->
+  fits_i64 (Z.of_nat (length l2) - ev) = true ->
+  parse_base (sg neg (l1 ++ 46%N :: l2)) ev
+  = Some (sgz neg (Z.of_N (N_of_digits (l1 ++ l2))), Z.of_nat (length l2) - ev).
+Proof.
+  intros neg l1 l2 ev Hn1 Hn2 Hd1 Hd2 Hf. unfold parse_base.
+  assert (Hne : l1 ++ 46%N :: l2 <> []) by (destruct l1; discriminate).
+  destruct (sg_cons neg _ Hne) as [c [t E]]. rewrite E, <- E.
+  rewrite sg_app, (split_first_app _ _ 46%N l2 (sg_no_dot neg l1 Hd1) eq_refl).
+  destruct l2 as [|c2 t2]; [contradiction|]. cbv iota beta zeta.
+  rewrite (filter_all _ _ (forallb_impl _ _ _ digit_not_us Hd2)), Hf.
+  rewrite <- sg_app. rewrite (bigint_of_digits neg (l1 ++ c2 :: t2)).
+  - reflexivity.
+  - destruct l1; discriminate.
+  - rewrite forallb_app, Hd1, Hd2. reflexivity.
+Qed.
+
+Lemma dec_parse_no_exp : forall base,
+  forallb (fun x => negb (is_exp_sep x)) base = true -> dec_parse base = parse_base base 0.
+Proof.
+  intros base H. rewrite dec_parse_unfold, (split_first_none _ _ H). reflexivity.
+Qed.
+
+Lemma dec_parse_exp : forall base c z, is_exp_sep c = true ->
+  forallb (fun x => negb (is_exp_sep x)) base = true -> fits_i128 z = true ->
+  dec_parse (base ++ c :: show_signed z) = parse_base base z.
+Proof.
+  intros base c z Hc H Hf.
+  rewrite dec_parse_unfold, (split_first_app _ _ c _ H Hc), (i128_show_signed z Hf). reflexivity.
+Qed.
+
+(* ---- the five layouts of dec_show ---- *)
+
+Lemma dec_show_cases : forall m sc, m <> 0 ->
+  let ds := digits_of_N (Z.abs_N m) in
+  let len := Z.of_nat (length ds) in
+  dec_show (m, sc) =
+  sg (m <? 0)
+    (if 5 <? sc - len then
+       match ds with
+       | [] => []
+       | d0 :: rest =>
+           (d0 :: match rest with [] => [] | _ :: _ => 46%N :: rest end)
+           ++ 69%N :: show_signed (len - sc - 1)
+       end
+     else if sc <? -15 then ds ++ 101%N :: show_signed (- sc)
+     else if sc <=? 0 then ds ++ repeat 48%N (Z.to_nat (- sc))
+     else if sc <? len then
+       firstn (Z.to_nat (len - sc)) ds ++ 46%N :: skipn (Z.to_nat (len - sc)) ds
+     else 48%N :: 46%N :: repeat 48%N (Z.to_nat (sc - len)) ++ ds).
+Proof.
+  intros m sc Hm ds len. unfold dec_show, sg.
+  assert (Hm0 : (m =? 0) = false) by lia. rewrite Hm0. cbv zeta.
+  fold ds. fold len.
+  assert (Hlen : 0 <= len) by (unfold len; lia).
+  assert (Hlz : (5 <? (if (0 <=? sc) && (len <=? sc) then sc - len else 0)) = (5 <? sc - len)).
+  { destruct (Z.leb_spec 0 sc), (Z.leb_spec len sc); cbn [andb]; lia. }
+  assert (Htz : (15 <? (if sc <=? 0 then - sc else 0)) = (sc <? -15)).
+  { destruct (Z.leb_spec sc 0); lia. }
+  rewrite Hlz, Htz.
+  reflexivity.
+Qed.
+
+Lemma fits_i64_iff : forall z,
+  fits_i64 z = true <-> - 9223372036854775808 <= z < 9223372036854775808.
+Proof.
+  intros z. unfold fits_i64. change p63z with 9223372036854775808. lia.
+Qed.
+
+Lemma fits_i128_small : forall z,
+  - 9223372036854775809 <= z <= 9223372036854775809 -> fits_i128 z = true.
+Proof.
+  intros z H. unfold fits_i128.
+  change p127 with 170141183460469231731687303715884105728. lia.
+Qed.
+
+Lemma repeat_zeros_alld : forall k, forallb is_digit (repeat 48%N k) = true.
+Proof. induction k as [|k IH]; cbn [repeat forallb]; [reflexivity|]. rewrite IH. reflexivity. Qed.
+
+Lemma alld_no_exp : forall ds, forallb is_digit ds = true ->
+  forallb (fun x => negb (is_exp_sep x)) ds = true.
+Proof. intros ds H. exact (forallb_impl _ _ _ digit_not_exp H). Qed.
+
+Theorem dec_show_parse : forall m sc, fits_i64 sc = true ->
+  exists d', dec_parse (dec_show (m, sc)) = Some d' /\ dec_value d' == dec_value (m, sc).
+Proof.
+  intros m sc Hf.
+  destruct (Z.eq_dec m 0) as [Hm|Hm].
+  { subst m. exists (0, 0). split.
+    - change (dec_show (0, sc)) with [48%N]. vm_compute. reflexivity.
+    - rewrite !dec_value_zero. reflexivity. }
+  rewrite (dec_show_cases m sc Hm).
+  set (neg := m <? 0). set (ds := digits_of_N (Z.abs_N m)). set (len := Z.of_nat (length ds)).
+  cbv zeta.
+  assert (Hd : forallb is_digit ds = true) by apply digits_of_N_alld.
+  assert (Hv : N_of_digits ds = Z.abs_N m) by apply N_of_digits_of_N.
+  assert (Hsg : sgz neg (Z.of_N (Z.abs_N m)) = m) by (unfold sgz, neg; destruct (Z.ltb_spec m 0); lia).
+  destruct (digits_of_N_cons (Z.abs_N m)) as [d0 [rest E]]. fold ds in E.
+  assert (Hne : ds <> []) by (rewrite E; discriminate).
+  assert (Hlen : 1 <= len) by (unfold len; rewrite E; cbn [length]; lia).
+  apply fits_i64_iff in Hf.
+  destruct (Z.ltb_spec 5 (sc - len)) as [H1|H1].
+  { (* d.dddE-x *)
+    exists (m, sc). split; [|reflexivity].
+    rewrite E. rewrite sg_app.
+    assert (Hd0 : forallb is_digit [d0] = true).
+    { rewrite E in Hd. cbn [forallb] in Hd. apply andb_true_iff in Hd. cbn [forallb].
+      destruct Hd as [-> _]. reflexivity. }
+    assert (Hrest : forallb is_digit rest = true).
+    { rewrite E in Hd. cbn [forallb] in Hd. apply andb_true_iff in Hd. tauto. }
+    rewrite dec_parse_exp.
+    - destruct rest as [|r rest'].
+      + rewrite (parse_base_int neg [d0]); try assumption; try discriminate.
+        * rewrite <- E, Hv, Hsg. f_equal. f_equal. unfold len. rewrite E. cbn [length]. lia.
+        * apply fits_i64_iff. unfold len. rewrite E. cbn [length]. lia.
+      + change (d0 :: 46%N :: r :: rest') with ([d0] ++ 46%N :: r :: rest').
+        rewrite (parse_base_frac neg [d0] (r :: rest')); try assumption; try discriminate.
+        * change ([d0] ++ r :: rest') with (d0 :: r :: rest').
+          rewrite <- E, Hv, Hsg. f_equal. f_equal. unfold len. rewrite E.
+          cbn [length]. lia.
+        * apply fits_i64_iff. unfold len. rewrite E. cbn [length]. lia.
+    - reflexivity.
+    - apply sg_no_exp. destruct rest as [|r rest'].
+      + apply alld_no_exp. exact Hd0.
+      + cbn [forallb] in Hd0. apply andb_true_iff in Hd0. destruct Hd0 as [Hd0 _].
+        pose proof (alld_no_exp _ Hrest) as Hx. cbn [forallb] in Hx.
+        cbn [forallb]. rewrite (digit_not_exp d0 Hd0), Hx. reflexivity.
+    - apply fits_i128_small. lia. }
+  destruct (Z.ltb_spec sc (-15)) as [H2|H2].
+  { (* ddde+x *)
+    exists (m, sc). split; [|reflexivity].
+    rewrite sg_app, dec_parse_exp.
+    - rewrite (parse_base_int neg ds); try assumption.
+      + rewrite Hv, Hsg. f_equal. f_equal. lia.
+      + apply fits_i64_iff. lia.
+    - reflexivity.
+    - apply sg_no_exp, alld_no_exp, Hd.
+    - apply fits_i128_small. lia. }
+  destruct (Z.leb_spec sc 0) as [H3|H3].
+  { (* ddd000 *)
+    set (k := Z.to_nat (- sc)).
+    assert (Hdz : forallb is_digit (ds ++ repeat 48%N k) = true).
+    { rewrite forallb_app, Hd, repeat_zeros_alld. reflexivity. }
+    exists (sgz neg (Z.of_N (N_of_digits (ds ++ repeat 48%N k))), 0 - 0). split.
+    - rewrite dec_parse_no_exp by (apply sg_no_exp, alld_no_exp, Hdz).
+      apply parse_base_int; [destruct ds; [contradiction|discriminate]|exact Hdz|reflexivity].
+    - rewrite N_of_digits_app_zeros, Hv.
+      rewrite (dec_value_scaled _ (0 - 0) 0), (dec_value_scaled m sc 0) by lia.
+      apply Qeq_same_den. unfold k. rewrite Z2Nat.id by lia.
+      replace (0 - (0 - 0)) with 0 by ring. replace (0 - sc) with (- sc) by ring.
+      rewrite Z.pow_0_r. rewrite <- Hsg at 2. unfold sgz. destruct neg; ring. }
+  destruct (Z.ltb_spec sc len) as [H4|H4].
+  { (* ddd.ddd *)
+    exists (m, sc). split; [|reflexivity].
+    set (k := Z.to_nat (len - sc)).
+    pose proof (firstn_skipn k ds) as Hfs.
+    assert (Hl1 : length (firstn k ds) = k) by (apply firstn_length_le; unfold k, len in *; lia).
+    assert (Hl2 : Z.of_nat (length (skipn k ds)) = sc).
+    { rewrite skipn_length. unfold k, len in *. lia. }
+    assert (Hdd : forallb is_digit (firstn k ds) = true /\ forallb is_digit (skipn k ds) = true).
+    { rewrite <- Hfs, forallb_app in Hd. apply andb_true_iff in Hd. exact Hd. }
+    destruct Hdd as [Hd1 Hd2].
+    rewrite dec_parse_no_exp.
+    - rewrite (parse_base_frac neg (firstn k ds) (skipn k ds)); try assumption.
+      + rewrite Hfs, Hv, Hsg, Hl2. f_equal. f_equal. lia.
+      + intros Hnil. rewrite Hnil in Hl1. cbn [length] in Hl1. unfold k, len in *. lia.
+      + intros Hnil. rewrite Hnil in Hl2. cbn [length] in Hl2. lia.
+      + rewrite Hl2. apply fits_i64_iff. lia.
+    - apply sg_no_exp. rewrite forallb_app. cbn [forallb].
+      rewrite (alld_no_exp _ Hd1), (alld_no_exp _ Hd2). reflexivity. }
+  { (* 0.000ddd *)
+    exists (m, sc). split; [|reflexivity].
+    set (j := Z.to_nat (sc - len)).
+    assert (Hdz : forallb is_digit (repeat 48%N j ++ ds) = true).
+    { rewrite forallb_app, Hd, repeat_zeros_alld. reflexivity. }
+    assert (Hl2 : Z.of_nat (length (repeat 48%N j ++ ds)) = sc).
+    { rewrite app_length, repeat_length. unfold j, len in *. lia. }
+    change (48%N :: 46%N :: repeat 48%N j ++ ds) with ([48%N] ++ 46%N :: (repeat 48%N j ++ ds)).
+    rewrite dec_parse_no_exp.
+    - rewrite (parse_base_frac neg [48%N] (repeat 48%N j ++ ds)); try assumption;
+        try discriminate; try reflexivity.
+      + change ([48%N] ++ repeat 48%N j ++ ds) with (48%N :: repeat 48%N j ++ ds).
+        rewrite N_of_digits_zeros_app, Hv, Hsg, Hl2. f_equal. f_equal. lia.
+      + intros Hnil. apply app_eq_nil in Hnil. destruct Hnil as [_ Hnil]. contradiction.
+      + rewrite Hl2. apply fits_i64_iff. lia.
+    - apply sg_no_exp. rewrite forallb_app. cbn [forallb].
+      rewrite (alld_no_exp _ Hdz). reflexivity. }
+Qed.
+
+(* N8 in the form asked for: what "||" (or any arithmetic function) prints reads back
+   to the same value; the scale has to be an i64, as in bigdecimal *)
+Corollary dec_show_normalize_parse : forall a, fits_i64 (snd (dec_normalize a)) = true ->
+  exists d', dec_parse (dec_show (dec_normalize a)) = Some d' /\ dec_value d' == dec_value a.
+Proof.
+  intros a Hf. destruct (dec_normalize a) as [m sc] eqn:E. cbn [snd] in Hf.
+  destruct (dec_show_parse m sc Hf) as [d' [Hp Hv]]. exists d'. split; [exact Hp|].
+  rewrite Hv, <- E. apply dec_normalize_value.
+Qed.
+
+(* printing then parsing then normalising is the identity on normal forms *)
+Corollary dec_show_parse_normalize : forall a, fits_i64 (snd (dec_normalize a)) = true ->
+  exists d', dec_parse (dec_show (dec_normalize a)) = Some d' /\
+             dec_normalize d' = dec_normalize a.
+Proof.
+  intros a Hf. destruct (dec_show_normalize_parse a Hf) as [d' [Hp Hv]].
+  exists d'. split; [exact Hp|]. apply dec_normalize_canonical. exact Hv.
+Qed.
+
+(* the result of any number-as-string function is a fixed point of "||" *)
+Corollary of_dec_reparse : forall d, fits_i64 (snd (dec_normalize d)) = true ->
+  sem_nas FNas_normalize [Some (of_dec d)] = Some (Some (of_dec d)).
+Proof.
+  intros d Hf. destruct (dec_show_parse_normalize d Hf) as [d' [Hp Hn]].
+  cbn [sem_nas]. unfold nas_unary, arg. cbn [nth_error].
+  change (to_dec (Some (of_dec d))) with (dec_parse (dec_show (dec_normalize d))).
+  rewrite Hp. cbn [option_map]. unfold of_dec. rewrite Hn. reflexivity.
+Qed.
+
+(* ================================================================== *)
+(* 8. N9 : examples                                                    *)
+(* ================================================================== *)
+
+Definition lit (s : string) : str := map N_of_ascii (list_ascii_of_string s).
+Definition nas2 (f : fn) (s t : string) : option (option json) :=
+  sem_nas f [jstr (lit s); jstr (lit t)].
+Definition nas1 (f : fn) (s : string) : option (option json) := sem_nas f [jstr (lit s)].
+Definition out (s : string) : option (option json) := Some (jstr (lit s)).
+Definition outb (b : bool) : option (option json) := Some (Some (JBool b)).
+
+Example ex_add_01_02 : nas2 FNas_add "0.1" "0.2" = out "0.3".
+Proof. vm_compute. reflexivity. Qed.
+
+Example ex_eq_1e2_100 : nas2 FNas_eq "1e2" "100" = outb true.
+Proof. vm_compute. reflexivity. Qed.
+Example ex_eq_100_10000 : nas2 FNas_eq "100" "100.00" = outb true.
+Proof. vm_compute. reflexivity. Qed.
+Example ex_lte_gte : nas2 FNas_lte "1e2" "100.00" = outb true /\ nas2 FNas_gte "1e2" "100.00" = outb true
+  /\ nas2 FNas_lt "1e2" "100.00" = outb false /\ nas2 FNas_neq "1E2" "+100.0_0" = outb false.
+Proof. vm_compute. repeat split; reflexivity. Qed.
+Example ex_same_normal_form :
+  nas1 FNas_normalize "1e2" = out "100" /\ nas1 FNas_normalize "100" = out "100" /\
+  nas1 FNas_normalize "100.00" = out "100" /\
+  dec_parse (lit "1e2") = Some (1, -2) /\ dec_parse (lit "100.00") = Some (10000, 2).
+Proof. vm_compute. repeat split; reflexivity. Qed.
+
+(* 30.30 digits times 30.30 digits: all 118 significant digits of the product *)
+Example ex_mul_60 :
+  nas2 FNas_mul "123456789012345678901234567890.123456789012345678901234567890"
+                "987654321098765432109876543210.987654321098765432109876543210"
+  = out "121932631137021795226185032733866788594511507391563633592367.3677792956119493974487120865336229233322374638011112635269".
+Proof. vm_compute. reflexivity. Qed.
+
+Example ex_sub_big : nas2 FNas_sub_ "1e100" "1"
+  = out "9999999999999999999999999999999999999999999999999999999999999999999999999999999999999999999999999999".
+Proof. vm_compute. reflexivity. Qed.
+
+Example ex_add_far : nas2 FNas_add "1e-40" "1e40"
+  = out "10000000000000000000000000000000000000000.0000000000000000000000000000000000000001".
+Proof. vm_compute. reflexivity. Qed.
+
+Example ex_abs : nas1 FNas_abs "-00123.4500" = out "123.45".
+Proof. vm_compute. reflexivity. Qed.
+
+(* the five layouts of the output *)
+Example ex_layouts :
+  map (nas1 FNas_normalize)
+    ["1.5e100"; "1e-100"; "0.00000123"; "0.000000123"; "-00123.4500"; "1_000"; "-0.0";
+     "12345678901234567890e16"; "1e15"; "1e16"; ".5"; "5."; "+5"; "0.1e-5"; "0.1e-6";
+     "123456789012345678901234567890123456789012345678901234567890e-40";
+     "-1.000000000000000000000000000000000000001E-100"]%string
+  = map out
+    ["15e+99"; "1E-100"; "0.00000123"; "1.23E-7"; "-123.45"; "1000"; "0";
+     "1234567890123456789e+17"; "1000000000000000"; "1e+16"; "0.5"; "5"; "5"; "0.000001"; "1E-7";
+     "12345678901234567890.123456789012345678901234567890123456789";
+     "-1.000000000000000000000000000000000000001E-100"]%string.
+Proof. vm_compute. reflexivity. Qed.
+
+(* round trip, executed: 60-digit mantissas, scales up to 40 and beyond, exponents +-100 *)
+Definition dec_eqb (a b : Z * Z) : bool := (fst a =? fst b) && (snd a =? snd b).
+Definition round_trips (d : Z * Z) : bool :=
+  match dec_parse (dec_show (dec_normalize d)) with
+  | Some d' => dec_eqb (dec_normalize d') (dec_normalize d)
+  | None => false
+  end.
+Example ex_round_trip :
+  forallb round_trips
+    [(0, 0); (0, 17); (1, 0); (-1, 0); (10, 0); (1500, 2); (-1500, -2);
+     (123456789012345678901234567890123456789012345678901234567890, 0);
+     (123456789012345678901234567890123456789012345678901234567890, 40);
+     (-123456789012345678901234567890123456789012345678901234567890, 59);
+     (123456789012345678901234567890123456789012345678901234567890, 60);
+     (123456789012345678901234567890123456789012345678901234567890, 65);
+     (123456789012345678901234567890123456789012345678901234567890, 66);
+     (123456789012345678901234567890123456789012345678901234567890, 100);
+     (-123456789012345678901234567891, -100); (7, -15); (7, -16); (7, 5); (7, 6); (7, 7);
+     (7, 100); (-7, -100); (1, 9223372036854775807); (1, -9223372036854775808)] = true.
+Proof. vm_compute. reflexivity. Qed.
+
+(* ================================================================== *)
+(* 9. assumptions                                                      *)
+(* ================================================================== *)
+
+Print Assumptions dec_add_exact.
+Print Assumptions dec_sub_exact.
+Print Assumptions dec_mul_exact.
+Print Assumptions dec_abs_exact.
+Print Assumptions dec_normalize_value.
+Print Assumptions dec_normalize_canonical.
+Print Assumptions dec_cmp_exact.
+Print Assumptions sem_nas_add2.
+Print Assumptions sem_nas_sub2.
+Print Assumptions sem_nas_mul2.
+Print Assumptions sem_nas_add_list.
+Print Assumptions sem_nas_mul_list.
+Print Assumptions sem_nas_compare.
+Print Assumptions sem_nas_compare_true.
+Print Assumptions sem_nas_spelling2.
+Print Assumptions sem_nas_spelling1.
+Print Assumptions dec_show_parse.
+Print Assumptions dec_show_normalize_parse.
+Print Assumptions of_dec_reparse.
